@@ -110,6 +110,15 @@ def check_case(case) -> Result:
                         return res.fail(
                             "earlier_content_lost", f"after document #{len(fed)} the prior bytes are no longer a prefix", **feats
                         )
+                    # one line per document, appended when the document is written (the file is what survives a
+                    # run that never sees its stop document)
+                    n_lines = now[len(pre_bytes) :].count(b"\n")
+                    if n_lines != len(fed):
+                        return res.fail(
+                            "line_not_appended_with_its_document",
+                            f"after document #{len(fed)} ({name}) the file holds {n_lines} appended line(s)",
+                            **feats,
+                        )
         files = sorted(os.listdir(d))
         if files != [expected_name]:
             return res.fail("unexpected_files", f"expected exactly [{expected_name!r}], directory has {files!r}", **feats)
